@@ -229,6 +229,12 @@ def rule_R2(ctx):
         if v[0] == "agg" and (v[2] or "").endswith("SettingParameter"):
             idt, val = v[4][0], v[4][1]
             oks = T.has_call(idt, "SettingId") and T.has_call(idt, "u16>::from_be_bytes") and T.has_call(val, "u32>::from_be_bytes")
+            # SETTINGS values are full 32-bit quantities (RFC 7540 6.5.1): no bit of the id or the value is masked or shifted away
+            touched = sorted({x[1] for y in (idt, val) for x in T.walk(y) if x[0] == "binop" and x[1] in ("BitAnd", "BitOr", "BitXor", "Shr", "Shl", "Rem")})
+            if touched:
+                oks = False
+                ctx.fail("R2", "settings:value-bits", "a SETTINGS id / value is passed through %s before it is stored: values with the affected bits set (e.g. 4294967295, "
+                         "2147483648 - legal initial window sizes) are reported wrongly in the S part and in the hash" % ",".join(touched), ctx.loc(sb, blk))
     step = any(callee_of(t).endswith("saturating_add") and T.fold_int(Q.call_args(sb, SS, blk, t)[1]) == 6 for blk, t in Q.calls(sb, "saturating_add"))
     # the same stride as an iterator: payload.chunks_exact(6) (complete records only, in order)
     step = step or any(T.fold_int(Q.call_args(sb, SS, blk, t)[1]) == 6 for blk, t in Q.calls(sb, ["::chunks_exact", "::as_chunks"]))
@@ -374,6 +380,21 @@ def rule_R3(ctx):
                   "the fingerprint is computed from the frames of buffer[parsed_offset..] only: frames completed by an earlier chunk (a PRIORITY or WINDOW_UPDATE frame that "
                   "precedes SETTINGS) are missing, so the incremental result differs from the one-shot fingerprint of the same bytes "
                   "(PRIORITY|SETTINGS split after the first frame gives `..|00|0|` instead of `..|00|3:0:0:201|`)", ctx.loc(b, blk))
+    # whether parsing is attempted depends on the bytes buffered so far, not on how they were delivered: every length test that
+    # decides the parse is a test of the slice that is parsed (never of the chunk just received)
+    for pb, pt in Q.calls(b, "parse_frames_with_offset"):
+        pa = Q.call_args(b, S, pb, pt)
+        parsed = T.pp(T.canon_value(T.strip(pa[-1])))
+        for c in Q.canon_conds(P, T.dom_conds(b, S, pb)):
+            o = Q.oriented(c, lambda z: T.has_call(z, "::len")) if c[0] == "cmp" else None
+            if o is None or T.fold_int(o[2]) is None:
+                continue
+            subj = [x for x in T.walk(o[1]) if x[0] == "call" and x[1].endswith("::len") and x[2]]
+            who = T.pp(T.canon_value(T.strip(subj[0][2][0]))) if subj else "?"
+            chunk = any(x[0] == "param" and x[2] == "data" for x in T.walk(o[1])) and not any(x[0] == "field" and x[2] == "buffer" for x in T.walk(o[1]))
+            ctx.check(not chunk, "R3", "add_bytes:guard-on-buffer", "the parse is gated on the buffered bytes (%s)" % who[:40],
+                      "whether add_bytes attempts to parse depends on the length of the chunk just received (%s %s %s), not of the bytes buffered: a short chunk that "
+                      "completes the first frames never triggers extraction, so the result depends on how the stream was divided" % (who[:40], o[0], T.fold_int(o[2])), ctx.loc(b, pb))
     # offset bookkeeping: the next parse starts where this one stopped = (offset this parse started at) + (bytes it consumed)
     starts = []
     for pb, pt in Q.calls(b, "parse_frames_with_offset"):
